@@ -122,6 +122,16 @@ MUTANTS += [
     REV('revert-generic-zero-check', 'C09', '578eafc', 'R-PARAM'),
     REV('revert-rs28-n-check', 'C09', '492b3a4', 'R-PARAM'),
     REV('revert-ldpc-seed-check', 'C09', '971f221', 'R-PARAM'),
+    M('accept-n1-4', 'C09', LDPCAPI, '	if (params->N1 < 3)', '	if (params->N1 < 4)', 'R-ACCEPT'),
+    M('accept-seed-upper', 'C09', LDPCAPI, 'params->prng_seed > 0x7FFFFFFE)', 'params->prng_seed > 0x7FFFFFF)', 'R-ACCEPT'),
+    M('accept-rs-k-200', 'C09', 'src/lib_stable/reed-solomon_gf_2_8/of_reed-solomon_gf_2_8_api.c',
+      '	ofcb->nb_source_symbols = params->nb_source_symbols;\n	if ((ofcb->nb_repair_symbols',
+      '	if (params->nb_source_symbols > 200) goto error;\n	if ((ofcb->nb_repair_symbols', 'R-ACCEPT'),
+    M('accept-n-strict', 'C09', 'src/lib_stable/reed-solomon_gf_2_8/of_reed-solomon_gf_2_8_api.c',
+      '	if (ofcb->nb_encoding_symbols > ofcb->max_nb_encoding_symbols) {', '	if (ofcb->nb_encoding_symbols >= ofcb->max_nb_encoding_symbols) {', 'R-ACCEPT'),
+    M('accept-pchk-ge', 'C09', 'src/lib_stable/ldpc_staircase/of_ldpc_staircase_pchk.c', '	if (left_degree > nb_rows)\n	{', '	if (left_degree >= nb_rows)\n	{', 'R-ACCEPT'),
+    M('accept-len-mult4', 'C09', API, '	    (params->encoding_symbol_length <= 0))', '	    (params->encoding_symbol_length <= 0) || (params->encoding_symbol_length & 3))', 'R-ACCEPT'),
+    M('accept-rs2m-m8-only', 'C09', RS2API, '	if ((ofcb->m != 4) && (ofcb->m != 8)) {', '	if (ofcb->m != 8) {', 'R-ACCEPT'),
     M('param-n1-lower', 'C09', LDPCAPI, '	if (params->N1 < 3)', '	if (params->N1 < 2)', 'R-PARAM'),
     M('param-m-7', 'C09', RS2API, '	if ((ofcb->m != 4) && (ofcb->m != 8)) {', '	if ((ofcb->m != 4) && (ofcb->m != 8) && (ofcb->m != 7)) {', 'R-PARAM'),
     M('param-k-vs-maxn', 'C09', LDPCAPI, '	if ((ofcb->nb_source_symbols = params->nb_source_symbols) > ofcb->max_nb_source_symbols)\n	{\n		OF_PRINT_ERROR(("of_ldpc_staircase',
@@ -318,4 +328,12 @@ MUTANTS += [
     M('2d-member-removed', 'C16', P2DH, '	void**		tmp_tab_symbols;\n	UINT16		nb_tmp_symbols;\n', '	void**		tmp_tab_symbols;\n', 'R-LAYOUT'),
     M('2d-radix-swapped', 'C16', PCHKGEN, '			of_mod2sparse_insert(m, i, j + (i * l) + l + d);', '			of_mod2sparse_insert(m, i, j + (i * d) + l + d);', 'R-2D-RADIX'),
     M('2d-release-leak', 'C16', P2D, '		if (ofcb->tmp_tab_symbols != NULL)\n		{\n			of_free(ofcb->tmp_tab_symbols);\n			ofcb->tmp_tab_symbols = NULL;\n		}', '', 'R-OWN-FIELD'),
+]
+
+MUTANTS += [
+    # ---- R-SIBLINGS
+    M('sib-invert-mat-24-pivot', ['C02', 'C01'], A24C, '                if (ipiv[col] != 1 && src[col*k + col] != 0)', '                if (ipiv[col] != 1 && src[col*k + col] == 1)', 'R-SIBLINGS', count=1),
+    M('sib-vdm-28-init', 'C02', A28C, '	c[k-1] = p[0] ;	/* really -p(0), but x = -x in GF(2^m) */', '	c[k-1] = p[1] ;	/* really -p(0), but x = -x in GF(2^m) */', 'R-SIBLINGS', count=1),
+    M('sib-rs2m-setavail-order', ['C01', 'C02', 'C10'], RS2API, '		if (i < ofcb->nb_source_symbols)\n		{\n			ofcb->nb_available_source_symbols++;\n		}\n		ofcb->nb_available_symbols++;', '		if (i <= ofcb->nb_source_symbols)\n		{\n			ofcb->nb_available_source_symbols++;\n		}\n		ofcb->nb_available_symbols++;', 'R-', count=1),
+    M('benign-sib-trace', ['C02', 'C01'], A28C, '	c[k-1] = p[0] ;	/* really -p(0), but x = -x in GF(2^m) */', '	OF_TRACE_LVL (2, ("vdm k=%d\\n", k))\n	c[k-1] = p[0] ;	/* really -p(0), but x = -x in GF(2^m) */', expect=0, count=1),
 ]
